@@ -38,7 +38,29 @@ overlay[_os.path.join(_REPO, "pkg/verifshim/vsync/vsync.go")] = _put("vsync.go.t
 
 # (b)
 _imp = _re.compile(r'^(\s*)"sync"[ \t]*$', _re.M)
-for _pkg in ("pkg/util/grace", "pkg/util/expectation"):
+# pkg/util/luamanager uses no lock on the unchanged tree (one fresh Lua state per call); it is on the list so that a
+# change which introduces shared, locked state there is explored by the scheduler as well.
+SHIM_PKGS = ("pkg/util/grace", "pkg/util/expectation", "pkg/util/luamanager")
+_MAY_BE_LOCK_FREE = ("pkg/util/luamanager",)
+
+
+def shim_rewrite(_s, _f):
+    """Returns the text with the plain "sync" import redirected to the shim, or None if the file does not import sync."""
+    _m = _imp.findall(_s)
+    if not _m:
+        assert '"sync"' not in _s and not _re.search(r'\bsync\.', _s), _f + ": uses sync without a plain import line"
+        return None
+    assert len(_m) == 1, _f + ': expected exactly one plain "sync" import'
+    _t = _imp.sub(lambda m: m.group(1) + 'sync "' + _SHIM_IMPORT + '"', _s, count=1)
+    assert _t != _s and ('sync "' + _SHIM_IMPORT + '"') in _t and not _imp.search(_t), _f + ": sync import not rewritten"
+    for _sym in set(_re.findall(r'\bsync\.([A-Za-z_]\w*)', _t)):
+        assert _re.search(r'\b(type\s+|func\s+)?' + _sym + r'\b', _vs) and (
+            ("type " + _sym + " ") in _vs or ("\t" + _sym + " ") in _vs or ("func " + _sym + "(") in _vs
+        ), _f + ": uses sync." + _sym + " which the vsync shim does not define"
+    return _t
+
+
+for _pkg in SHIM_PKGS:
     _n = 0
     _files = sorted(_glob.glob(_os.path.join(_REPO, _pkg, "*.go")))
     assert _files, "no go files in " + _pkg
@@ -46,23 +68,13 @@ for _pkg in ("pkg/util/grace", "pkg/util/expectation"):
         if _f.endswith("_test.go"):
             continue
         _s = open(_f).read()
-        _m = _imp.findall(_s)
-        if not _m:
-            # left alone: must not use package sync at all (sync/atomic is a different package and fine)
-            assert '"sync"' not in _s and not _re.search(r'\bsync\.', _s), _f + ": uses sync without a plain import line"
+        _t = shim_rewrite(_s, _f)
+        if _t is None:
             continue
-        assert len(_m) == 1, _f + ': expected exactly one plain "sync" import'
-        _t = _imp.sub(lambda m: m.group(1) + 'sync "' + _SHIM_IMPORT + '"', _s, count=1)
-        assert _t != _s and ('sync "' + _SHIM_IMPORT + '"') in _t and not _imp.search(_t), _f + ": sync import not rewritten"
-        # everything the file takes from sync must exist in the shim
-        for _sym in set(_re.findall(r'\bsync\.([A-Za-z_]\w*)', _t)):
-            assert _re.search(r'\b(type\s+|func\s+)?' + _sym + r'\b', _vs) and (
-                ("type " + _sym + " ") in _vs or ("\t" + _sym + " ") in _vs or ("func " + _sym + "(") in _vs
-            ), _f + ": uses sync." + _sym + " which the vsync shim does not define"
         _name = "vs_" + _pkg.replace("/", "_") + "_" + _os.path.basename(_f) + ".txt"
         overlay[_f] = _put(_name, _t)
         _n += 1
-    assert _n >= 1, _pkg + ": no file importing sync found (layout changed?)"
+    assert _n >= 1 or _pkg in _MAY_BE_LOCK_FREE, _pkg + ": no file importing sync found (layout changed?)"
 
 # (c)
 _g = open(_os.path.join(_SHIM_DIR, "grace_verif_sched.go.txt")).read()
